@@ -632,6 +632,10 @@ class GroupCoordinator(BaseCoordinator):
             # Ensure active group
             try:
                 await self.ensure_coordinator_known()
+                if not subscription.active:
+                    # The subscription was changed while we were looking for
+                    # the coordinator, start over with the new one.
+                    continue
                 if auto_assigned and self.need_rejoin(subscription):
                     new_assignment = await self.ensure_active_group(
                         subscription, assignment
